@@ -292,7 +292,9 @@ def lookup_hash(
         # normalize name
         name_list = _get_hash_aliases(digest)
         name = name_list[0]
-        assert name
+        if not name:
+            # e.g. "", " ", "scram-": nothing left once the name is normalized
+            raise exc.UnknownHashError(value=digest)
 
         # if name wasn't normalized to hashlib format,
         # get info for normalized name and reuse it.
